@@ -101,13 +101,13 @@ func c01ReadyTable(e *Env, s *Sched, withReturn bool) {
 		if lk, ok := ir.Resolve(l.Ranged).(*ssa.Lookup); ok {
 			mp, ok1 := e.C.PathOf(lk.X)
 			ip, ok2 := e.C.PathOf(lk.Index)
-			if ok1 && ok2 && mp.Suffix("to") && ip.Suffix("id") && SameValue(ip.Root, nodeParam) {
+			if ok1 && ok2 && mp.Suffix(e.graphRoles().Pred) && ip.Suffix("id") && SameValue(ip.Root, nodeParam) {
 				loop = l
 			}
 		}
 	}
 	if loop == nil {
-		r.Bad("isReady: loop over g.to[node.id]", e.Pos(fn.Pos()), "isReady no longer iterates the incoming-edge list of the node being tested (g.to[node.id])")
+		r.Bad("isReady: loop over g.to[node.id]", e.Pos(fn.Pos()), "the readiness function no longer iterates the incoming-edge list of the node being tested (the adjacency map addEdge fills with a node's dependencies)")
 		return
 	}
 	r.OK("isReady: loop over g.to[node.id]", e.Pos(fn.Pos()), "dependencies are read from the `to` adjacency of the tested node")
@@ -141,9 +141,14 @@ func c01ReadyTable(e *Env, s *Sched, withReturn bool) {
 	// initial value(s): from outside the loop
 	covered := map[int64]bool{}
 	var walk func(v ssa.Value, blk *ssa.BasicBlock, k int, depth int)
+	var checkKeepLits func(blk *ssa.BasicBlock, k int, lits []ir.NLit)
 	checkKeep := func(blk *ssa.BasicBlock, k int) {
 		// the accumulator is kept across this edge: the dependency must be in a licensed cell
-		lits := e.DCSPhiEdge(blk, k)
+		for _, lits := range e.expandHelperCalls(e.DCSPhiEdge(blk, k), 0) {
+			checkKeepLits(blk, k, lits)
+		}
+	}
+	checkKeepLits = func(blk *ssa.BasicBlock, k int, lits []ir.NLit) {
 		// subject: status read of some node that is not the tested node
 		var depRoot ssa.Value
 		isDepStatus := func(v ssa.Value) bool {
@@ -269,10 +274,20 @@ func c01ReadyTable(e *Env, s *Sched, withReturn bool) {
 func c01Edges(e *Env, s *Sched) {
 	r := e.R
 	r.Rule("C01.edges", "MPT+WMW", "every Depends entry becomes an edge or an error", 3)
-	setup := e.Fn(schedRel, "(*ExecutionGraph).setup")
+	// by role: the function that calls the edge writer (in a loop over Step.Depends)
+	var setup *ssa.Function
+	if gr := e.graphRoles(); gr.ok {
+		for _, ci := range e.StaticCallSites(gr.AddEdge) {
+			setup = ci.Parent()
+		}
+	}
+	if setup == nil {
+		setup = e.Fn(schedRel, "(*ExecutionGraph).setup")
+	}
 	if setup == nil {
 		return
 	}
+	predF, succF := e.graphRoles().Pred, e.graphRoles().Succ
 	// the function that writes both adjacency maps
 	var addEdge *ssa.Function
 	writers := map[string][]string{}
@@ -286,10 +301,10 @@ func c01Edges(e *Env, s *Sched) {
 				if mu, ok := in.(*ssa.MapUpdate); ok {
 					if p, ok := e.C.PathOf(mu.Map); ok && strings.HasSuffix(ir.NamedType(p.Root.Type()), ".ExecutionGraph") {
 						switch p.Dotted() {
-						case "from":
+						case succF:
 							from = true
 							writers["from"] = append(writers["from"], ShortFn(f))
-						case "to":
+						case predF:
 							to = true
 							writers["to"] = append(writers["to"], ShortFn(f))
 						}
@@ -353,10 +368,10 @@ func c01Edges(e *Env, s *Sched) {
 					continue
 				}
 				ap, _ := e.C.PathOf(appended)
-				if mp.Dotted() == "to" && SameValue(kp.Root, pt) && SameValue(ap.Root, pf) {
+				if mp.Dotted() == predF && SameValue(kp.Root, pt) && SameValue(ap.Root, pf) {
 					good++
 				}
-				if mp.Dotted() == "from" && SameValue(kp.Root, pf) && SameValue(ap.Root, pt) {
+				if mp.Dotted() == succF && SameValue(kp.Root, pf) && SameValue(ap.Root, pt) {
 					good++
 				}
 			}
@@ -376,7 +391,7 @@ func c01Edges(e *Env, s *Sched) {
 		for _, b := range addEdge.Blocks {
 			for _, in := range b.Instrs {
 				if mu, ok := in.(*ssa.MapUpdate); ok {
-					if mp, ok := e.C.PathOf(mu.Map); ok && (mp.Dotted() == "to" || mp.Dotted() == "from") {
+					if mp, ok := e.C.PathOf(mu.Map); ok && (mp.Dotted() == predF || mp.Dotted() == succF) {
 						m := map[lk]bool{}
 						for _, l := range e.Facts(addEdge).DCS(b) {
 							m[lk{l.If, l.Pol}] = true
@@ -465,13 +480,17 @@ func c01FlipFirst(e *Env, s *Sched) {
 	running := s.val("NodeStatusRunning")
 	found := false
 	var facts []string
-	for _, ev := range s.statusEvents(s.Loop) {
+	var evs []ir.StoreEvent
+	for _, f := range sortedFns(s.LoopFns) {
+		evs = append(evs, s.statusEvents(f)...)
+	}
+	for _, ev := range evs {
 		k, ok := s.constOf(ev)
 		facts = append(facts, sprintf("%s: status:=%s root=%s", e.InstrPos(ev.Site), e.C.Render(ev.Val), e.C.Render(ev.Root)))
 		if !ok || k != running || !sameNode(ev.Root, s.LoopNode) || ev.InCond {
 			continue
 		}
-		if ir.Precedes(ev.Site, s.Launch) {
+		if ev.Site.Parent() == s.LaunchFn && ir.Precedes(ev.Site, s.Launch) {
 			// after the gate: dominated by the same status==None literal
 			if HasCmp(e.DCS(ev.Site), s.isStatusOf(s.LoopNode), token.EQL, s.val("NodeStatusNone")) {
 				found = true
@@ -487,15 +506,24 @@ func c01RetryResetLate(e *Env, s *Sched) {
 	r.Rule("C01.retry-reset-late", "MPT+VF", "reset to None only after sleeping RetryPolicy.Interval", 1)
 	none := s.val("NodeStatusNone")
 	n := 0
-	for _, ev := range s.statusEvents(s.Worker) {
+	var wevs []ir.StoreEvent
+	for _, f := range sortedFns(s.WorkerFns) {
+		for _, ev := range s.statusEvents(f) {
+			if len(ev.Via) > 0 && s.inWorker(ev.Via[0]) {
+				continue // seen again in the helper itself
+			}
+			wevs = append(wevs, ev)
+		}
+	}
+	for _, ev := range wevs {
 		k, ok := s.constOf(ev)
 		if !ok || k != none || !sameNode(ev.Root, s.WorkerNode) {
 			continue
 		}
 		n++
-		// a dominating time.Sleep(node...RetryPolicy.Interval)
+		// a dominating time.Sleep(node...RetryPolicy.Interval) in the same function
 		okSleep := false
-		for _, ci := range ir.CallsIn(s.Worker, func(c *ssa.CallCommon) bool { return ir.IsCallTo(c, "time.Sleep") }) {
+		for _, ci := range ir.CallsIn(ev.Site.Parent(), func(c *ssa.CallCommon) bool { return ir.IsCallTo(c, "time.Sleep") }) {
 			if !ir.Precedes(ci, ev.Site) {
 				continue
 			}
@@ -530,7 +558,7 @@ func c01SingleLaunch(e *Env, s *Sched) {
 	for len(work) > 0 {
 		f := work[len(work)-1]
 		work = work[:len(work)-1]
-		if f == s.Loop {
+		if s.inLoop(f) {
 			continue
 		}
 		callers := e.StaticCallSites(f)
@@ -553,7 +581,7 @@ func c01SingleLaunch(e *Env, s *Sched) {
 	}
 	// roots other than the loop: functions in R with no caller in R
 	for f := range inR {
-		if f == s.Loop || f == s.Execute {
+		if s.inLoop(f) || f == s.Execute {
 			continue
 		}
 		hasCaller := false
@@ -570,24 +598,26 @@ func c01SingleLaunch(e *Env, s *Sched) {
 	// address-taken uses of Execute (method values) are not call edges: forbid them
 	// call sites inside the loop function: launch, or post-Wait
 	var wait ssa.Instruction
-	for _, ci := range ir.CallsIn(s.Loop, func(c *ssa.CallCommon) bool { return ir.IsCallTo(c, "(*sync.WaitGroup).Wait") }) {
-		wait = ci
+	for _, lf := range sortedFns(s.LoopFns) {
+		for _, ci := range ir.CallsIn(lf, func(c *ssa.CallCommon) bool { return ir.IsCallTo(c, "(*sync.WaitGroup).Wait") }) {
+			wait = ci
+		}
 	}
 	for _, st := range sites {
-		if st.caller != s.Loop || st.in == nil {
+		if !s.inLoop(st.caller) || st.in == nil {
 			continue
 		}
 		if st.in == ssa.CallInstruction(s.Launch) {
 			r.OK("loop→worker via the gated go statement", e.InstrPos(st.in), "the launch site (see C01.gate)")
 			continue
 		}
-		ok := wait != nil && ir.Precedes(wait, st.in)
+		ok := wait != nil && s.after(wait, st.in)
 		r.Check(ok, "loop→"+ShortFn(st.callee)+" only after wg.Wait()", e.InstrPos(st.in),
 			"the scheduling loop reaches a function that executes a step command without passing the readiness gate and before all workers have finished")
 	}
 	// calls from the worker into R
 	for _, st := range sites {
-		if st.caller == s.Worker && st.in != nil {
+		if s.inWorker(st.caller) && st.in != nil {
 			r.OK("worker→"+ShortFn(st.callee), e.InstrPos(st.in), "execution path inside the launched worker")
 		}
 	}
@@ -618,6 +648,31 @@ func c01FinishWrites(e *Env, s *Sched) {
 			return x == s.Execute || n == "(*"+schedRel+".Node).setup" || n == "(*"+schedRel+".Node).teardown"
 		})
 	}
+	isExecCall := func(in ssa.Instruction) bool {
+		c, ok := in.(*ssa.Call)
+		return ok && execLike(c) && e.ReachesRepo(c.Call.StaticCallee(), func(x *ssa.Function) bool { return x == s.Execute })
+	}
+	// no (re-)execution after the store: in the function of the store and, when that
+	// is a single-call-site helper of the worker, after its call site, and so on up
+	noLaterExec := func(site ssa.Instruction) bool {
+		cur := site
+		for d := 0; d < 5; d++ {
+			bad, _ := ir.Bypass(cur, nil, ir.PathQuery{Bad: isExecCall})
+			if bad != nil {
+				return false
+			}
+			f := cur.Parent()
+			if f == s.Worker || !s.inWorker(f) {
+				return true
+			}
+			us := ir.UniqueSite(f)
+			if us == nil {
+				return true
+			}
+			cur = us
+		}
+		return true
+	}
 	for _, f := range e.RepoFuncsSorted() {
 		if rootFn(f).Package() != sp {
 			continue
@@ -627,39 +682,41 @@ func c01FinishWrites(e *Env, s *Sched) {
 			if !ok {
 				continue
 			}
-			if _, isParam := ev.Root.(*ssa.Parameter); len(ev.Via) > 0 && false && isParam {
+			// a store made inside a helper that belongs to the worker / the loop (virtual
+			// inlining view) is examined in that helper, not again at its call site
+			if len(ev.Via) > 0 && (s.inWorker(ev.Via[0]) || s.inLoop(ev.Via[0])) && ir.UniqueSite(ev.Via[0]) != nil {
 				continue
 			}
 			pos := e.InstrPos(ev.Site)
 			lits := e.DCS(ev.Site)
+			inW := s.inWorker(f) && sameNode(ev.Root, s.WorkerNode)
 			switch {
-			case k == succ && f == s.Worker:
+			case k == succ && inW:
 				ok1 := HasCmp(lits, s.isStatusOf(s.WorkerNode), token.EQL, s.val("NodeStatusRunning"))
-				// no exec afterwards
-				bad, _ := ir.Bypass(ev.Site, nil, ir.PathQuery{Bad: func(in ssa.Instruction) bool {
-					c, ok := in.(*ssa.Call)
-					return ok && execLike(c) && e.ReachesRepo(c.Call.StaticCallee(), func(x *ssa.Function) bool { return x == s.Execute })
-				}})
-				r.Check(ok1 && bad == nil, "worker: status:=Success under status==Running, after the exec loop", pos,
+				r.Check(ok1 && noLaterExec(ev.Site), "worker: status:=Success under status==Running, after the exec loop", pos,
 					"the worker marks the step finished without checking it is still running, or can execute the command again afterwards", e.FactsStr("dominating conditions: ", lits))
-			case k == errc && f == s.Worker:
+			case k == errc && inW:
 				ok1 := false
 				for _, l := range lits {
-					if l.Kind == "cmp" && l.Op == token.NEQ && ir.IsNilConst(l.Y) && execLike(ir.Resolve(l.X)) {
+					if l.Kind == "cmp" && l.Op == token.NEQ && ir.IsNilConst(l.Y) && execLike(ir.Deep(l.X)) {
 						ok1 = true
 					}
 				}
 				r.Check(ok1, "worker: status:=Error under an error from setup/exec/teardown ["+shortSite(e, ev)+"]", pos,
 					"the worker marks the step failed on a path where no setup/exec/teardown error was observed", e.FactsStr("dominating conditions: ", lits))
-			case (k == succ || k == errc) && f != s.Worker:
+			case (k == succ || k == errc) && !inW:
 				// other writers of a terminal label: plain accessors (reported at
 				// their call sites) and the handler runner, applied to handler
 				// nodes only.
 				if isAccessor(f) {
 					continue
 				}
-				if f == s.Loop {
-					r.Check(s.isHandlerNode(ev.Root), "loop: "+s.name(k)+" written only to a handler node ["+shortSite(e, ev)+"]", pos,
+				if s.inLoop(f) {
+					where := "loop"
+					if f != s.Loop {
+						where = "loop (" + shortName(f) + ")"
+					}
+					r.Check(s.isHandlerNode(ir.Deep(ev.Root)), where+": "+s.name(k)+" written only to a handler node ["+shortSite(e, ev)+"]", pos,
 						"the scheduling loop itself labels a graph step finished/failed")
 					continue
 				}
@@ -674,7 +731,7 @@ func c01FinishWrites(e *Env, s *Sched) {
 					callers := e.StaticCallSites(f)
 					okH = len(callers) > 0 && idx >= 0
 					for _, ci := range callers {
-						if ci.Parent() != s.Loop || idx >= len(ci.Common().Args) || !s.isHandlerNode(ci.Common().Args[idx]) {
+						if !s.inLoop(ci.Parent()) || idx >= len(ci.Common().Args) || !s.isHandlerNode(ir.Deep(ci.Common().Args[idx])) {
 							okH = false
 						}
 					}
